@@ -34,7 +34,8 @@ THOROUGH_BUDGET_S = 900
 RULE = ("16 source->target pairs in rotation; source files from the part checks' generators (c01.gen_text, c02.gen main/offgrid, "
         "c04.gen, c06.gen_doc, c07.gen) re-drawn until the target supports the inferred key count, plus millisecond charts "
         "(1-5 tempo points, first at 0 or not, on / off measure lines; 0-40 hits and holds on beat grids, whole and fractional "
-        "milliseconds; scroll velocities before / after the first tempo point) rendered as osu and Quaver files; BMS targets over "
+        "milliseconds; scroll velocities before / after the first tempo point; timing points listed in / out of time order; osu meters "
+        "3/4, 5/4, 7/4 lasting whole sections) rendered as osu and Quaver files; BMS targets over "
         "the layouts that have enough lanes, column shift 0-2; non-trivial = at least 3 objects and (a hold or 2 tempo points)")
 ASSUMPTIONS = [
     "the parts' domains are taken over as they are (C01 dialect, C02 without risky comments / non-empty #STOPS, C04 without "
@@ -256,10 +257,17 @@ def osu_lines(ch, rng):
          "SliderMultiplier:1.4", "SliderTickRate:1", "", "[Events]", "//Background and Video events", '0,0,"bg.png",0,0',
          "//Break Periods", "//Storyboard Layer 0 (Background)", "//Storyboard Layer 1 (Fail)", "//Storyboard Layer 2 (Pass)",
          "//Storyboard Layer 3 (Foreground)", "//Storyboard Sound Samples", "", "[TimingPoints]"]
-    tps = [(t, f"{_fmt_ms(t)},{repr(60000 / b)},4,1,0,50,1,0") for t, b in ch["bpms"]]
+    # meters other than 4/4 last for whole sections (several bars); the order of the lines is free in the format
+    waltz = rng.random() < 0.3
+    tps = [(t, f"{_fmt_ms(t)},{repr(60000 / b)},{rng.choice([3, 5, 7, 4]) if waltz else 4},1,0,50,1,0") for t, b in ch["bpms"]]
     tps += [(t, f"{_fmt_ms(t)},{repr(-100 / m)},4,1,0,50,0,0") for t, m in ch["svs"]]
-    if rng.random() < 0.7:
+    r = rng.random()
+    if r < 0.6:
         tps.sort(key=lambda p: p[0])
+    elif r < 0.8:
+        tps.reverse()
+    else:
+        rng.shuffle(tps)
     L += [p[1] for p in tps] + ["", "", "[HitObjects]"]
     objs = []
     for t, c in ch["hits"]:
@@ -288,6 +296,11 @@ def qua_doc(ch, rng):
     if rng.random() < 0.5:
         rng.shuffle(hos)
     doc["TimingPoints"] = [dict(StartTime=num(t), Bpm=float(b)) for t, b in ch["bpms"]]
+    r = rng.random()
+    if r < 0.2:
+        doc["TimingPoints"].reverse()
+    elif r < 0.4:
+        rng.shuffle(doc["TimingPoints"])
     doc["SliderVelocities"] = [dict(StartTime=num(t), Multiplier=float(m)) for t, m in ch["svs"]]
     doc["HitObjects"] = hos
     return doc
@@ -419,6 +432,17 @@ def corpus():
     bp = [(1234.0, 120.0), (3234.0, 240.0)]
     # D14 witness: osu chart whose first timing point is not at 0 ms -> StepMania
     c.append(_osu_case("sm", bp, hits4, holds4))
+    # timing points listed out of time order (seeded class C09-A) and a 3/4 meter lasting several bars (C09-B)
+    un = _osu_case("sm", [(34.0, 120.0), (234.0, 240.0)], [(34.0, 0), (2234.0, 3)], [(1234.0, 2, 500.0)])
+    L = un["source"]["lines"]
+    i0 = L.index("[TimingPoints]")
+    L[i0 + 1], L[i0 + 2] = L[i0 + 2], L[i0 + 1]
+    c.append(un)
+    wz = _osu_case("bms", [(0.0, 200.0)], [(0.0, 0), (900.0, 1), (2700.0, 3), (5400.0, 2)], [], shift=0, layout="BME")
+    L = wz["source"]["lines"]
+    i0 = L.index("[TimingPoints]")
+    L[i0 + 1] = "0,300.0,3,1,0,50,1,0"
+    c.append(wz)
     # D15 witness: 6K dance-solo -> osu
     rows6 = "\n".join(["100000", "010000", "001000", "000100", "000010", "000001", "200000", "300001"])
     c.append(dict(claim="sm->osu", src="sm", tgt="osu", origin="corpus", source=dict(text=SM_TEXT % ("dance-solo", rows6)), opts={}))
@@ -733,10 +757,6 @@ def _run(case, drv):
                 kf_pred.append("D35")
             if not f["bpm_3dec"]:
                 kf_pred.append("D06")
-        if tgt == "sm" and src == "qua":
-            ts = [F(x[0]) for x in a["hits"]] + [F(x[0]) for x in a["holds"]] + [F(x[0]) for x in a["bpms"]] + [F(x) for x in info.get("sv_times", [])]
-            if f["first_tempo"] is not None and ts and min(ts) != F(f["first_tempo"]):
-                kf_pred.append("N09a")
     res = "ms" if tgt in ("osu", "qua") else ([[1, 96], [1, 192]] if tgt == "sm" else [[1, 192], [1, 192]])
     for a in srcs:
         cr = drv.call("c09.crowded", res=res, a=dict(hits=a["hits"], holds=a["holds"], bpms=a["bpms"]))["ok"]
@@ -745,8 +765,6 @@ def _run(case, drv):
         if cr["tempo_crowded"]:
             hyp.append("two tempo points closer than the target's resolution")
     if src == "bms":
-        if not info.get("header_texts_present"):
-            kf_pred.append("N09b")
         if info.get("d05"):
             kf_pred.append("D05")
         if not info.get("grid_compatible"):
@@ -799,8 +817,25 @@ def _run(case, drv):
                 T = drv.call("c09.abs", **written[i][0])
                 if "ok" not in T:
                     if tgt == "bms" and T.get("time_sig"):
-                        return dict(claim=claim, ok=True, agree=agree or not dom, dom=False, kf=None,
-                                    tags=tags + ["written-bms-has-time-signature-lines:not-judged"], nontrivial=False, detail={})
+                        # channel-02 lines are outside Spec.BMS.denote: the library's own BMS reader is the referee here
+                        # (objects only: it re-seats the tempo list).  No converter carries a metronome, so the unchanged
+                        # tree never gets here.
+                        tags.append("written-bms-has-time-signature-lines:judged-by-reading-back")
+                        try:
+                            raw = written[i][0]
+                            back = I["BMSMap"].read([bytes.fromhex(h).decode("shift_jis", "replace") for h in raw["lines"]],
+                                                    getattr(I["BMSChannel"], layout))
+                            vb = close(drv, res, False, shift, a, mem_abs(back))
+                            good = vb["hits"] and vb["holds"]
+                        except Exception as e:
+                            good = False
+                            why.append(f"chart {i}: reading the written file back raised {type(e).__name__}")
+                        if not good:
+                            ok = False
+                            why.append(f"chart {i}: the written BMS file has time-signature lines and, read back, its objects differ from the source's")
+                            detail["written"] = written[i][1][:3000]
+                        hyp.append("written BMS has channel-02 lines (outside Spec.BMS.denote)")
+                        continue
                     ok = False
                     why.append(f"chart {i}: the written {tgt} file has no denotation ({T.get('err')})")
                     detail["written"] = written[i][1][:3000]
@@ -851,7 +886,7 @@ def _run(case, drv):
     tags += sorted(set(kf_pred))
     if hyp:
         tags.append("outside-hypotheses")
-    if not ok and not kf and [h for h in hyp if not h.startswith("tempo change off")]:
+    if not ok and not kf and [h for h in hyp if not h.startswith(("tempo change off", "written BMS has channel-02"))]:
         # outside the writers' domains (C03 / C05 / the property's own quantifier): nothing is demanded
         return dict(claim=claim, ok=True, agree=True, dom=False, kf=None, tags=tags + ["not-judged"], nontrivial=False, detail={})
     nontrivial = n_obj >= 3 and (any(a["holds"] for a in srcs) or any(a["facts"]["n_bpms"] >= 2 for a in srcs))
